@@ -44,6 +44,7 @@ Record link := { l_ctx : N; l_ts : bool; l_attrs : list kv; l_dropped : nat }.
     attributes), WithTimestamp (an instant in ns; 0 = not given, the wall clock
     is used and not compared), WithSpanKind (the raw number). *)
 Record start_opts := {
+  so_sattrs : list kv;   (* attributes returned by the sampler (applied first) *)
   so_attrs : list kv;
   so_links : list (N * bool * list kv);
   so_start : N;
@@ -53,14 +54,18 @@ Record start_opts := {
 (** The calls of the property.  [ORecordError typ msg] stands for
     RecordError(err) where [typ] is the Go type string of err and [msg] its
     Error() text; status codes: 0 Unset, 1 Error, 2 Ok.  [OEnd ts] is
-    End(WithTimestamp(ts)), [OEnd 0] is End() (wall clock, not compared). *)
+    End(WithTimestamp(ts)), [OEnd 0] is End() (wall clock, not compared).
+    [ORecordError … stack] with [stack] set is RecordError(err, WithStackTrace(true))
+    (the stack text is not compared, see [stack_attr]); [ORead] is a read of the
+    live span through its ReadOnlySpan accessors in the middle of the program. *)
 Inductive op :=
 | OSetAttrs (kvs : list kv)
 | OAddEvent (name : bytes) (ts : N) (kvs : list kv)
-| ORecordError (typ msg : bytes) (ts : N) (kvs : list kv)
+| ORecordError (typ msg : bytes) (ts : N) (kvs : list kv) (stack : bool)
 | OAddLink (ctx : N) (has_ts : bool) (kvs : list kv)
 | OSetStatus (code : N) (desc : bytes)
 | OSetName (name : bytes)
+| ORead
 | OEnd (ts : N).
 
 (** What a span processor / exporter can read from the ended span. *)
@@ -143,6 +148,10 @@ Definition mk_link (lim : limits) (ctx : N) (ts : bool) (attrs : list kv) : link
 
 Definition exc_attrs (typ msg : bytes) : list kv :=
   [(str "exception.type", VStr typ); (str "exception.message", VStr msg)].
+(** The stack-trace attribute; its text is canonicalised by the harness. *)
+Definition stack_attr : kv := (str "exception.stacktrace", VStr (str "STACK")).
+Definition exc_all (typ msg : bytes) (stack : bool) : list kv :=
+  exc_attrs typ msg ++ (if stack then [stack_attr] else []).
 
 (** A link with an invalid span context, no attributes and no tracestate is ignored. *)
 Definition link_counts (ctx : N) (ts : bool) (attrs : list kv) : bool :=
@@ -151,7 +160,7 @@ Definition link_counts (ctx : N) (ts : bool) (attrs : list kv) : bool :=
 Definition events_of (lim : limits) (ops : list op) : list event :=
   flat_map (fun o => match o with
                      | OAddEvent n t a => [mk_event lim n t a]
-                     | ORecordError typ msg t a => [mk_event lim (str "exception") t (a ++ exc_attrs typ msg)]
+                     | ORecordError typ msg t a st => [mk_event lim (str "exception") t (a ++ exc_all typ msg st)]
                      | _ => []
                      end) ops.
 
@@ -192,9 +201,11 @@ Definition kind_of (k : N) : N := if (1 <=? k) && (k <=? 5) then k else 1.
 
 (** Starting a span with options is making these calls first: one AddLink per
     link (same rules: ignored empty link, per-link cap, link limit), then one
-    SetAttributes with all start attributes (same bounded insertion). *)
+    SetAttributes with the sampler's attributes and one with all start
+    attributes (same bounded insertion). *)
 Definition start_ops (so : start_opts) : list op :=
-  map (fun l => let '(c, ts, a) := l in OAddLink c ts a) (so_links so) ++ [OSetAttrs (so_attrs so)].
+  map (fun l => let '(c, ts, a) := l in OAddLink c ts a) (so_links so) ++
+  [OSetAttrs (so_sattrs so); OSetAttrs (so_attrs so)].
 
 (** The instant given to the first End (0: none given, or never ended by the program). *)
 Fixpoint end_time_of (ops : list op) : N :=
